@@ -237,6 +237,23 @@ Fixpoint stack_reject (st : list pdec) (msgs : list pmsg) : option N :=
   | PMetrics _ :: st' => stack_reject st' (map set_mark msgs)
   end.
 
+(** the first rejection of one delay layer over a batch, if any *)
+Fixpoint first_reject (hasgen allow : bool) (msgs : list pmsg) : option N :=
+  match msgs with
+  | [] => None
+  | m :: r => match decide hasgen allow m with Reject e => Some e | _ => first_reject hasgen allow r end
+  end.
+
+(** what the whole stack makes of one message of a batch that is not rejected *)
+Definition layer_final (d : pdec) (m : pmsg) : pmsg :=
+  match d with
+  | PTransform t => add_trail t m
+  | PDelay g a => apply_decision (decide g a m) m
+  | PMetrics _ => set_mark m
+  end.
+Definition stack_final (st : list pdec) (m : pmsg) : pmsg := fold_left (fun m d => layer_final d m) st m.
+
+(** the observation records of a model run, call by call *)
 Definition fresh_batch (msgs : list pmsg) : bool :=
   match msgs with [] => false | m0 :: _ => negb (pm_mark m0) end.
 
